@@ -20,7 +20,7 @@ RULE = ("Hypothesis generates switch scripts: 2-8 contexts (index 0 = the drivin
         "1-40 switches whose targets are any other context (A->B->A, chains, switching into fresh contexts, back to the thread), six generated 64-bit values per switch planted into "
         "rbx, rbp, r12-r15 by an assembly shim, and optionally a second pthread that resumes the contexts the first one suspended; every script runs on all six builds of "
         "fiber_context.c (split|mmap|malloc stacks x assembly|ucontext switching). Oracle: registers, rsp and a 16-word stack frame on resumption equal those at suspension; a fresh "
-        "context gets its argument in rdi, rsp = 8 (mod 16) at entry and inside its own stack; stacks pairwise disjoint and at least as large as requested; destroy releases each stack "
+        "context gets its argument in rdi, rsp = 8 (mod 16) at entry and inside its own stack; stacks pairwise disjoint; destroy releases each stack "
         "exactly once (free/munmap/__splitstack_releasecontext wrapped). An execution (script x variant) is non-trivial when it resumes at least one suspended context and starts at "
         "least one fresh one; distinct = distinct (script, variant).")
 ASSUME = ["x86-64 only (the i386 and Solaris back ends cannot be built in this sandbox)", "gcc 12, -O1; fiber_context.c compiled from the current working tree",
